@@ -400,6 +400,40 @@ def judge_points(ctx, c):
               case=c, key="C14:at_points")
     ok2 = "time" in out.coords and np.array_equal(out["time"].values.astype("datetime64[ns]"), points["time"])
     ctx.check("C14.at_points:coords", bool(ok2), c, key="C14:at_points:coords")
+    # the same track on a *direction* field (uniform in space, turning in time across the seam), through the data-array
+    # entry point with the data period given and the discontinuity left at its default, and given explicitly
+    from ocean_science_utilities.interpolate.dataarray import interpolate_track_data_arrray
+    rngd = np.random.default_rng(int(abs(float(vals.flat[0])) * 1e9) % (2 ** 32))
+    th = (rngd.uniform(0, 360) + np.cumsum(rngd.uniform(-120, 120, len(t)))) % 360.0
+    da = xarray.DataArray(np.broadcast_to(th[:, None, None], vals.shape).copy(), dims=("time", "latitude", "longitude"),
+                          coords={"time": t64, "latitude": lat, "longitude": lon}, name="meanDirection")
+    inside = (pla >= lat[0]) & (pla <= lat[-1])
+    j0 = np.clip(np.searchsorted(t, pt, side="right") - 1, 0, len(t) - 2)
+    wgt = (pt - t[j0]) / (t[j0 + 1] - t[j0])
+    a0, a1 = th[j0], th[j0 + 1]
+    delta = circ_diff(a1, a0)
+    for kw, label in (({"period_data": 360}, "default-discont"), ({"period_data": 360, "discont": 360}, "discont=360")):
+        okd, outd = guarded(ctx, "C14.no-exception",
+                            lambda: interpolate_track_data_arrray(da, {k_: np.array(v_) for k_, v_ in points.items()}, "time",
+                                                                  {"longitude": 360}, **kw), c,
+                            key="C14:exception:interpolate_track_data_arrray")
+        if not okd:
+            continue
+        g = np.asarray(outd.values, float)
+        if g.shape != pt.shape:
+            ctx.check("C14.track-direction-field:range", False, c, {"shape": g.shape}, key="C14:track-dir:shape")
+            continue
+        ctx.count("C14.direction_fields_at_track_points")
+        fin = inside & np.isfinite(g)
+        ctx.check("C14.track-direction-field:range", bool(np.all((g[fin] >= 0) & (g[fin] < 360))), c,
+                  {"call": label, "got": g}, key="C14:track-dir:range:" + label)
+        R = np.abs((1 - wgt) * np.exp(1j * np.deg2rad(a0)) + wgt * np.exp(1j * np.deg2rad(a1)))
+        tol = 3e-5 / np.maximum(R, 1e-6) + 1e-6
+        off = circ_diff(g, a0)
+        judged = fin & (np.abs(delta) < 179.9)
+        on_arc = (np.sign(delta) * off >= -tol) & (np.sign(delta) * off <= np.abs(delta) + tol)
+        ctx.check("C14.track-direction-field:on-shorter-arc", bool(np.all(on_arc | ~judged)), c,
+                  {"call": label, "left": a0, "right": a1, "w": wgt, "got": g}, key="C14:track-dir:arc:" + label)
 
 
 # ------------------------------------------------------------------ E: interpolate_dataset (geometry) with direction data
